@@ -73,7 +73,14 @@ class Entity(ABC):
         self._partially_hidden = False
         self._public = True
 
-        map_attributes(self, **kwargs)
+        try:
+            map_attributes(self, **kwargs)
+        except Exception:
+            # a refused attribute: the half-built entity does not stay with its parent
+            siblings = getattr(self._parent, "_children", None)
+            if isinstance(siblings, list) and self in siblings:
+                siblings.remove(self)
+            raise
 
         self.workspace.register(self)
 
